@@ -43,3 +43,16 @@ claim("C17", "other", "provenance of slice expressions (3-index clip rule), non-
       "Does NOT decide which elements end up where (Partition order, Rotate's permutation, chunk/batch lengths, Head/Tail/Stripe contents).",
       BASE_NOTE,
       "DESIGN.md section 3, C17")
+claim("C12", "other", "provenance (origin) analysis of every write event with callee mutation summaries; strictness/lean agreement read from the SSA",
+      "Decides: none of LCS/LCSFunc/LIS/LISFunc/LNDS/LNDSFunc/bisectRight/EditScript/editScriptFunc nor their closures can write through an input slice (every element store, "
+      "copy destination, append base, clear and mutating-callee argument has a provenance of allocations made in the function); and in LISFunc/LNDSFunc the strictness of the "
+      "fast-path comparison agrees with the lean of the binary search used (LNDS: >= with right-leaning search read from bisectRight's body; LIS: > with left-leaning "
+      "slices.BinarySearchFunc) - the only documented difference between the two. Does NOT decide that the results are subsequences of maximum length.",
+      BASE_NOTE + " Standard-library mutators are a frozen table; user comparison callbacks are outside the rule.",
+      "DESIGN.md section 3, C12")
+claim("C18", "other", "fresh-and-non-nil provenance analysis with per-function summaries; guarded-update path rule",
+      "Decides: every set returned by New, NewSize, Clone, Intersect, Range, Keys and Values is allocated inside the call, provably non-nil, and never a parameter (so it cannot "
+      "alias an argument); AddAll on a nil receiver stores a clone, not its argument; in pointer-receiver methods every update of *s is preceded on all paths by *s != nil or by "
+      "storing a fresh map. Does NOT decide the set-theoretic answers of Intersects/IsSubset/Equals/HasAll/HasAny/Intersect, Pop, or Slice/Append contents.",
+      BASE_NOTE,
+      "DESIGN.md section 3, C18")
